@@ -233,7 +233,39 @@ impl World {
                     Some((refs, _route)) => BoxedLockCollection::try_new(refs).map(|c| Node::Slice(crate::shape::SNode::BoxedV(c))).ok_or(BuildErr::Rejected),
                 }
             }
-            TSpec::Slice { kind, boxed, members, poison } => {
+            TSpec::Slice { kind, members, array: true, .. } => {
+                let mut refs: Vec<&'static Leaf> = Vec::new();
+                for l in members {
+                    refs.push(self.leaf(*l).ok_or_else(|| BuildErr::Bad(format!("leaf {} has no slot", l)))?);
+                }
+                let dup = self.spec.has_dup(t);
+                use crate::shape::SNode;
+                let node = match (kind, refs.len()) {
+                    (CollKind::Boxed, 2) => BoxedLockCollection::try_new([refs[0], refs[1]]).map(SNode::BoxedA2),
+                    (CollKind::Retry, 3) => RetryingLockCollection::try_new([refs[0], refs[1], refs[2]]).map(|c| SNode::RetryA3(Box::new(c))),
+                    _ => return Err(BuildErr::Bad(format!("no array target for {:?} with {} members", kind, refs.len()))),
+                };
+                {
+                    let mut g = sched.lock();
+                    g.stats.dup_checks += 1;
+                    if dup {
+                        g.stats.dup_pos += 1;
+                    }
+                }
+                match (node, dup) {
+                    (Some(n), false) => Ok(Node::Slice(n)),
+                    (None, true) => Err(BuildErr::Rejected),
+                    (Some(_), true) => {
+                        sched.report(Clause::DupVerdict, format!("{:?} try_new accepted an array of references {:?} which contains a duplicate", kind, self.spec.elems(t)));
+                        Err(BuildErr::Rejected)
+                    }
+                    (None, false) => {
+                        sched.report(Clause::DupVerdict, format!("{:?} try_new rejected a duplicate-free array of references {:?}", kind, self.spec.elems(t)));
+                        Err(BuildErr::Rejected)
+                    }
+                }
+            }
+            TSpec::Slice { kind, boxed, members, poison, .. } => {
                 let mut refs: Vec<&'static Leaf> = Vec::new();
                 for l in members {
                     refs.push(self.leaf(*l).ok_or_else(|| BuildErr::Bad(format!("leaf {} has no slot", l)))?);
